@@ -10,6 +10,11 @@ import (
 	"time"
 
 	"berty.tech/go-orbit-db/events"
+	"berty.tech/go-orbit-db/iface"
+	"berty.tech/go-orbit-db/stores"
+	"berty.tech/go-orbit-db/stores/kvstore"
+	datastore "github.com/ipfs/go-datastore"
+	dsync "github.com/ipfs/go-datastore/sync"
 )
 
 type esub struct {
@@ -95,6 +100,100 @@ func (w *World) execEmitOp(ctx context.Context, toks []string) (bool, error) {
 			}
 		}
 		w.printf("eclosed %s %v\n", toks[1], closed)
+	case "eglobal":
+		// eglobal : the legacy GlobalChannel; a first caller receives an event and goes away (its context
+		// ends); a second caller, with a live context, must receive what is emitted afterwards
+		em := &events.EventEmitter{}
+		c1, cancel1 := context.WithCancel(w.ctx)
+		ch1 := em.GlobalChannel(c1)
+		em.Emit(w.ctx, 1)
+		first := false
+		select {
+		case e := <-ch1:
+			first = fmt.Sprint(e) == "1"
+		case <-time.After(500 * time.Millisecond):
+		}
+		cancel1()
+		// the first channel ends
+		deadline := time.After(500 * time.Millisecond)
+	gone:
+		for {
+			select {
+			case _, ok := <-ch1:
+				if !ok {
+					break gone
+				}
+			case <-deadline:
+				break gone
+			}
+		}
+		c2, cancel2 := context.WithCancel(w.ctx)
+		ch2 := em.GlobalChannel(c2)
+		emitted := make(chan struct{})
+		go func() { em.Emit(w.ctx, 2); close(emitted) }()
+		second := "none"
+		select {
+		case e, ok := <-ch2:
+			if !ok {
+				second = "closed"
+			} else {
+				second = fmt.Sprint(e)
+			}
+		case <-time.After(500 * time.Millisecond):
+		}
+		cancel2()
+		w.printf("eglobal first=%v second=%s\n", first, second)
+	case "enilbus":
+		// enilbus p : a key-value store built with its public constructor and the default (nil) EventBus
+		// option; a subscriber on its bus and one on its legacy channel API; one Put
+		pr := w.peers[atoi(toks[1])]
+		addr, err := pr.odb.DetermineAddress(ctx, fmt.Sprintf("direct-%d", time.Now().UnixNano()), "keyvalue", nil)
+		if err != nil {
+			return true, err
+		}
+		replicate := false
+		st, err := kvstore.NewOrbitDBKeyValue(pr.odb.IPFS(), pr.odb.Identity(), addr, &iface.NewStoreOptions{
+			Replicate:    &replicate,
+			Cache:        dsync.MutexWrap(datastore.NewMapDatastore()),
+			CacheDestroy: func() error { return nil },
+		})
+		if err != nil {
+			return true, err
+		}
+		kv := st.(iface.KeyValueStore)
+		busSub, err := kv.EventBus().Subscribe(new(stores.EventWrite))
+		if err != nil {
+			return true, err
+		}
+		lctx, lcancel := context.WithCancel(w.ctx)
+		legacy := kv.Subscribe(lctx) //nolint:staticcheck
+		_, perr := kv.Put(ctx, "k", []byte("v"))
+		onBus, onLegacy := false, false
+		select {
+		case e := <-busSub.Out():
+			_, onBus = e.(stores.EventWrite)
+		case <-time.After(time.Second):
+		}
+		tmo := time.After(time.Second)
+	legacyLoop:
+		for {
+			select {
+			case e, ok := <-legacy:
+				if !ok {
+					break legacyLoop
+				}
+				if _, isW := e.(stores.EventWrite); isW {
+					onLegacy = true
+					break legacyLoop
+				}
+			case <-tmo:
+				break legacyLoop
+			}
+		}
+		lcancel()
+		_ = busSub.Close()
+		_ = st.Close()
+		w.printf("enilbus put=%s bus=%v legacy=%v\n", errStr(perr), onBus, onLegacy)
 	case "ewedge":
 		// ewedge trials : a legacy subscriber whose forwarder lags (held at its hook point) until its bus
 		// subscription is full and an Emit is blocked on it, is cancelled; a second subscriber keeps
